@@ -54,6 +54,26 @@ g = Globals(None)
 g.f_globals = dict(structs.__dict__)
 
 
+# ---- shadow modules: user structs named like builtin definitions / Python builtins, declared through
+# the real decorator at module level and in nested scopes; read back in their declaring frame
+SHADOW_ERR = {}
+for _m in inp.get("shadow_modules", []):
+    try:
+        with open(_m["name"] + ".py", "w") as f:
+            f.write(_m["src"])
+        _mod = importlib.import_module(_m["name"])
+        _sh = dict(_mod.SHADOW)
+    except Exception as e:  # noqa: BLE001
+        SHADOW_ERR[_m["name"]] = f"{type(e).__name__}: {str(e)[:300]}"
+        continue
+    for _k, _obj in _sh.items():
+        try:
+            STRUCT[_k] = ENGINE.get_checked(_obj.id)
+            SCOPED_FRAME[_k] = DEF_STORE.frames[_obj.id]
+        except Exception as e:  # noqa: BLE001
+            SHADOW_ERR[_k] = f"{type(e).__name__}: {str(e)[:300]}"
+
+
 def params_of(name):
     return (OPAQUE.get(name) or STRUCT[name]).params
 
@@ -99,10 +119,23 @@ def mk(t, const=False):
     raise ValueError(t)
 
 
-def unmk(ty):
-    """real Type/Argument -> JSON (first-order part)."""
+def def_ids(ty, out):
+    """name -> id of every opaque/struct definition mentioned in a real type"""
     if isinstance(ty, TypeArg):
-        return unmk(ty.ty)
+        return def_ids(ty.ty, out)
+    if isinstance(ty, (TupleType, OpaqueType, StructType)):
+        if not isinstance(ty, TupleType):
+            out.setdefault(ty.defn.name, ty.defn.id)
+        for a in ty.args:
+            def_ids(a, out)
+    return out
+
+
+def unmk(ty, expected=None):
+    """real Type/Argument -> JSON (first-order part).  `expected`: name -> definition id of the
+    original type; a same-named but different definition is marked (names alone cannot tell)."""
+    if isinstance(ty, TypeArg):
+        return unmk(ty.ty, expected)
     if isinstance(ty, ConstArg):
         c = ty.const
         if isinstance(c, ConstValue) and c.ty == B.nat_type() and isinstance(c.value, int) and not isinstance(c.value, bool):
@@ -113,9 +146,12 @@ def unmk(ty):
     if isinstance(ty, NoneType):
         return ["none"]
     if isinstance(ty, TupleType):
-        return ["tuple", [unmk(x) for x in ty.element_types]]
+        return ["tuple", [unmk(x, expected) for x in ty.element_types]]
     if isinstance(ty, (OpaqueType, StructType)):
-        return ["app", ty.defn.name, [unmk(a) for a in ty.args]]
+        nm = ty.defn.name
+        if expected and nm in expected and expected[nm] != ty.defn.id:
+            nm += "#other-definition"
+        return ["app", nm, [unmk(a, expected) for a in ty.args]]
     return ["other", repr(ty)]
 
 
@@ -226,13 +262,16 @@ for case in inp["cases"]:
     kind = case[0]
     try:
         if kind == "rt":
+            for _k in SHADOW_ERR:
+                if json.dumps(_k) in json.dumps(case[1]) or (len(case) > 2 and _k == case[2].get("module")):
+                    raise RuntimeError(f"shadow definition {_k} could not be declared/checked: {SHADOW_ERR[_k]}")
             ty = mk(case[1])
             s = str(ty)
             gl = scope_of(case[1]) or g
             pe, back, err = read_back(s, gl)
             results.append({"str": s, "toks": lex(s), "pytok_agrees": pytok(s) == lex(s), "pyexpr": pe,
                             "bad_struct_names": bad_struct_names(ty, gl),
-                            "back": unmk(back) if back is not None else None, "same": back == ty if back is not None else False,
+                            "back": unmk(back, def_ids(ty, {})) if back is not None else None, "same": back == ty if back is not None else False,
                             "err": err, "copyable": ty.copyable, "droppable": ty.droppable})
         elif kind == "toks":
             s = " ".join(case[1])
@@ -247,10 +286,11 @@ for case in inp["cases"]:
         results.append({"crash": f"{type(e).__name__}: {e}"})
 
 env = []
-for name, d in list(OPAQUE.items()) + list(STRUCT.items()):
+for name, d in list(OPAQUE.items()) + [(k, v) for k, v in STRUCT.items() if ":" not in k]:
     ps = [["type", p.must_be_copyable, p.must_be_droppable] if isinstance(p, TypeParam) else ["nat"] for p in d.params]
     # flags of the definition itself: instantiate with copyable+droppable arguments
     args = [TypeArg(NumericType(NUM["int"])) if isinstance(p, TypeParam) else ConstArg(ConstValue(B.nat_type(), 1)) for p in d.params]
     inst = OpaqueType(args, d) if name in OPAQUE else StructType(args, d)
     env.append([name, "app", ps, inst.copyable, inst.droppable])
-json.dump({"env": env, "results": results}, sys.stdout)
+builtin_names = sorted(k for k in Globals.builtin_defs() if isinstance(k, str))
+json.dump({"env": env, "results": results, "builtin_names": builtin_names, "shadow_errors": SHADOW_ERR}, sys.stdout)
